@@ -502,7 +502,7 @@ pub fn c15_unary<G: GroupApi>(a: &Val<G>) -> Result<u32, Bad> {
             ensure!(&x == rx && &y == ry, "affine", "{} AffineG::from_jacobian gives other coordinates for {}", G::NAME, a.json());
             let back = lib("from affine", || a.v.affine_roundtrip())?.expect("some");
             ensure!(lib("==", || back == a.v)?, "affine", "{} G::from(AffineG::from_jacobian(A)) != A for {}", G::NAME, a.json());
-            ensure!(back.coords().2 == G::RF::one() && alpha::<G>(&back) == p, "affine", "{} affine round trip denotes another point for {}", G::NAME, a.json());
+            ensure!(alpha::<G>(&back) == p, "affine", "{} affine round trip denotes another point for {}", G::NAME, a.json());
         }
         (g, _) => return mccore::bad("affine", format!("{} AffineG::from_jacobian is_some={} for {}", G::NAME, g.is_some(), a.json())),
     }
